@@ -95,6 +95,7 @@ fn run_trace(line: &str, dir: &str) -> String {
         }
     };
     let mut held_drop: Option<std::thread::JoinHandle<()>> = None;
+    let mut kept_snaps: Vec<raft_log::DumpRaftLog<HT>> = Vec::new();
     for it in &items {
         let t: Vec<&str> = it.split_whitespace().collect();
         match t[0] {
@@ -118,6 +119,13 @@ fn run_trace(line: &str, dir: &str) -> String {
             }
             "fault" => shim::add_fault(t[1], pu(t[2])),
             "autosnap" => shim::AUTO_SNAP.store(true, std::sync::atomic::Ordering::SeqCst),
+            "DSK" => {
+                // a snapshot (dump_data) that outlives the store: kept until the end of the case
+                if let Some(s) = st.as_ref() {
+                    kept_snaps.push(s.rl.dump_data());
+                    shim::logline("c keptsnap".to_string());
+                }
+            }
             "cfault" => {
                 // cfault create N: the N-th creation of a chunk file by the caller fails (disk full)
                 shim::CFAULT_CREATE.store(pu(t[2]), std::sync::atomic::Ordering::SeqCst);
@@ -241,6 +249,9 @@ fn run_trace(line: &str, dir: &str) -> String {
                 // only the last m rounds append an entry before the flush (the others are
                 // flushes with nothing pending: they fill the channel without growing the file)
                 let m: u64 = t.get(2).map(|s| pu(s)).unwrap_or(n);
+                // optional tail, run by the same helper thread once the channel is (nearly) full:
+                // `P <term> <index>` then one more flush with a callback
+                let tail: Option<String> = if t.len() >= 6 && t[3] == "P" { Some(format!("P {} {}", t[4], t[5])) } else { None };
                 if let Some(mut s) = st.take() {
                     let (tx, rx) = std::sync::mpsc::channel();
                     let tid = std::sync::Arc::new(std::sync::atomic::AtomicI64::new(0));
@@ -265,6 +276,9 @@ fn run_trace(line: &str, dir: &str) -> String {
                             if stop || call(&mut s, &dir2, "F 1", idle) {
                                 break;
                             }
+                        }
+                        if let Some(p) = tail {
+                            let _ = call(&mut s, &dir2, &p, idle) || call(&mut s, &dir2, "F 1", idle);
                         }
                         let _ = tx.send(s);
                     });
@@ -315,6 +329,7 @@ fn run_trace(line: &str, dir: &str) -> String {
     std::thread::sleep(std::time::Duration::from_millis(5));
     let snap = disk_str(dir);
     drop(st);
+    drop(kept_snaps);
     let mut log = shim::stop();
     log.push(format!("c end {}", snap));
     log.join(" ; ")
@@ -407,6 +422,18 @@ fn lock_contend(dir: &str, logfile: &str, threads: usize, rounds: usize, seed: u
                                 let t3: Vec<&str> = t2.iter().map(|s| s.as_str()).collect();
                                 let (res, _) = exec_op(&mut s, &dir, &t3);
                                 shim::lock_log(&format!("h append {}", res));
+                                if rnd() % 3 == 0 {
+                                    // a dump of the live store (read-only) must not affect ownership
+                                    use raft_log::DumpApi;
+                                    let mut n = 0usize;
+                                    let r = s.rl.dump().write_with(|_c, _i, _r| {
+                                        n += 1;
+                                        Ok(())
+                                    });
+                                    shim::lock_log(&format!("h dump {} {}", if r.is_ok() { "ok" } else { "err" }, n));
+                                    let d = s.rl.dump_data();
+                                    drop(d);
+                                }
                                 if idx >= 4 && rnd() % 2 == 0 {
                                     // purge so that old chunk files are removed
                                     let up = (idx - 2).to_string();
